@@ -194,3 +194,49 @@ Proof.
   - unfold go_reencode_tx. apply tx_roundtrip_l. exact (proj1 (lp_tx t W)).
   - unfold go_signing_tx, go_marshal_tx. rewrite norm_tx_idem. split; reflexivity.
 Qed.
+
+(* ------------------------------------------------------------------ collision-extraction forms (no hypothesis on H):
+   equal hashes / ids give equal signed fields OR an explicit collision of H *)
+Definition collision (H : bytes -> bytes) : Prop := exists a b, a <> b /\ H a = H b.
+Lemma bytes_eq_dec (a b : bytes) : {a = b} + {a <> b}.
+Proof. apply list_eq_dec, N.eq_dec. Qed.
+Lemma hash_eq_cases (H : bytes -> bytes) a b : H a = H b -> a = b \/ collision H.
+Proof. intros E. destruct (bytes_eq_dec a b) as [e|n]; [left; exact e|right; exists a, b; split; assumption]. Qed.
+
+Section Extract.
+  Variable H : bytes -> bytes.
+  Theorem tx_signing_hash_extract_l t1 t2 : wfp c_tx t1 -> wfp c_tx t2 ->
+    go_tx_signing_hash H t1 = go_tx_signing_hash H t2 -> signed_part t1 = signed_part t2 \/ collision H.
+  Proof.
+    intros W1 W2 E. destruct (hash_eq_cases H _ _ E) as [e|c]; [left|right; exact c]. exact (go_signing_injective_l t1 t2 W1 W2 e).
+  Qed.
+  Theorem tx_id_extract_l t1 t2 o1 o2 : wfp c_tx t1 -> wfp c_tx t2 -> length o1 = length o2 ->
+    go_tx_id H t1 (Some o1) = go_tx_id H t2 (Some o2) -> signed_part t1 = signed_part t2 \/ collision H.
+  Proof.
+    intros W1 W2 Hl E. cbn [go_tx_id] in E. destruct (hash_eq_cases H _ _ E) as [e|c]; [|right; exact c].
+    apply app_inj_len in e; [|exact Hl]. destruct e as [e _]. exact (tx_signing_hash_extract_l t1 t2 W1 W2 e).
+  Qed.
+  Theorem tx_hash_extract_l t1 t2 : wfp c_tx t1 -> wfp c_tx t2 ->
+    go_tx_hash H t1 = go_tx_hash H t2 -> norm_tx t1 = norm_tx t2 \/ collision H.
+  Proof.
+    intros W1 W2 E. destruct (hash_eq_cases H _ _ E) as [e|c]; [left|right; exact c]. exact (go_marshal_injective_l t1 t2 W1 W2 e).
+  Qed.
+  Theorem header_signing_hash_extract_l h1 h2 : wfp c_header h1 -> wfp c_header h2 ->
+    go_header_signing_hash H h1 = go_header_signing_hash H h2 -> header_signed_view h1 = header_signed_view h2 \/ collision H.
+  Proof.
+    intros W1 W2 E. destruct (hash_eq_cases H _ _ E) as [e|c]; [left|right; exact c]. exact (header_signing_any_injective_l h1 h2 W1 W2 e).
+  Qed.
+  Theorem header_id_extract_l h1 h2 s1 s2 : wfp c_header h1 -> wfp c_header h2 -> length s1 = length s2 ->
+    go_header_id_hash H h1 s1 = go_header_id_hash H h2 s2 -> header_signed_view h1 = header_signed_view h2 \/ collision H.
+  Proof.
+    intros W1 W2 Hl E. unfold go_header_id_hash in E. destruct (hash_eq_cases H _ _ E) as [e|c]; [|right; exact c].
+    apply app_inj_len in e; [|exact Hl]. destruct e as [e _]. exact (header_signing_hash_extract_l h1 h2 W1 W2 e).
+  Qed.
+  (* the two F2 wire forms of one Go object have the same signing hash, id and hash, whatever H is *)
+  Theorem f2_pair_same_id_l b t o : go_decode_tx b = Some t ->
+    exists t', go_decode_tx (go_reencode_tx t) = Some t' /\ go_tx_id H t' o = go_tx_id H t o /\ go_tx_hash H t' = go_tx_hash H t.
+  Proof.
+    intros Hd. destruct (tx_reencode_same_object_l b t Hd) as [H1 [H2 H3]]. exists (norm_tx t). split; [exact H1|].
+    unfold go_tx_id, go_tx_signing_hash, go_tx_hash. rewrite H2, H3. split; reflexivity.
+  Qed.
+End Extract.
